@@ -74,6 +74,8 @@ def generate(ctx):
                 gc = [max(0.0, (a - 0.5) / k), min(1.0, (b + 0.5) / k)] if rng.random() < 0.5 else [a / (2 * k) if a % 2 else max(0.0, (a - 1) / (2 * k)), min(1.0, (b | 1) / (2 * k))]
             motifs = rng.choice([None, None, [gens.random_dna(rng, rng.randint(1, k))],
                                  [gens.random_dna(rng, rng.randint(1, k)) for _ in range(3)]])
+            if motifs and rng.random() < 0.3:
+                motifs = motifs + [oracles.revcomp(motifs[0])]     # a motif listed together with its own reverse complement
             spec = dict(kind="local", cfg=dict(k=k, run=run, gc=gc, motifs=motifs))
         else:
             spec = dict(kind="user", spec=dict(pred=rng.choice(preds), seed=rng.getrandbits(30), p=rng.choice([0.05, 0.15, 0.3]),
@@ -213,6 +215,7 @@ def check_filter_sequence(ctx, case):
     k, t = case["k"], case["t"]
     rng = random.Random(derive_seed(ctx.seed, jdump(case)))
     f = dsw.LocalBioFilter(observed_length=k, max_homopolymer_runs=case["run0"], gc_range=case["gc"], undesired_motifs=[])
+    cfg = dict(k=k, run=case["run0"], gc=None if case["gc"] is None else [str(x) for x in case["gc"]], motifs=[])   # the settings as they are
     for stage in range(3):
         try:
             mask = dsw.find_vertices(k, f)
@@ -227,15 +230,18 @@ def check_filter_sequence(ctx, case):
                 if out.kind == "ok" and is_strand(out.value):
                     full = G.kmer(int(start), k) + out.value
                     for i in range(len(full) - k + 1):
-                        if not bool(f.valid(full[i:i + k])):
-                            ctx.fail("window-rejected-by-filter", "stage %d (filter object edited in place: run limit %s, motifs %s): window %r of %s is rejected by the filter as it is now" % (
+                        # judged by the independent predicate for the *current* settings (the object itself may answer from a cache)
+                        if not ref_valid(cfg, full[i:i + k], False)[0] or not bool(f.valid(full[i:i + k])):
+                            ctx.fail("window-rejected-by-filter", "stage %d (filter object edited in place: run limit %s, motifs %s): window %r of %s violates the settings as they are now" % (
                                 stage, f.max_homopolymer_runs, f.undesired_motifs, full[i:i + k], full), "filter_sequence", case)
                             return
                     ctx.evaluations += 1
         if stage == 0:
             f.max_homopolymer_runs = case["run1"]
+            cfg["run"] = case["run1"]
         elif stage == 1:
             f.undesired_motifs.append(case["motif"])
+            cfg["motifs"] = cfg["motifs"] + [case["motif"]]
     ctx.cls("pipeline re-run after the filter object was edited")
     ctx.done("filter_sequence", case, True)
 
